@@ -233,6 +233,7 @@ def main(argv=None):
     args = ap.parse_args(argv)
     seed = int(os.environ.get("VERIF_SEED", "0") or 0)
     tier = args.tier if args.tier in ("quick", "thorough") else "quick"
+    os.environ["VERIF_TIER"] = tier      # spec modules size their case splits by it (imported below and in the workers)
     repo = os.path.abspath(args.repo)
     t_start = time.time()
 
